@@ -1154,7 +1154,24 @@ func (r *Run) unop(fr *Frame, x *ssa.UnOp) Value {
 	v := r.get(fr, x.X)
 	switch x.Op {
 	case token.MUL:
-		return r.fixSort(r.load(v.(*PtrV)), x.Type())
+		p := v.(*PtrV)
+		if at, ok := x.Type().Underlying().(*types.Array); ok && p.sym == nil && len(p.path) > 0 {
+			// *(*[N]T)(unsafe.Pointer(&a[i])): an array view of N consecutive elements of a larger scalar array
+			par := r.load(&PtrV{obj: p.obj, path: p.path[:len(p.path)-1]})
+			if arr, isArr := par.(*ArrayV); isArr {
+				if _, elemIsArr := r.load(p).(*ArrayV); !elemIsArr {
+					arr.mat()
+					i0, n := p.path[len(p.path)-1], int(at.Len())
+					if i0+n > len(arr.e) {
+						panic(unsupported("unsafe array view beyond the underlying array"))
+					}
+					out := &ArrayV{e: make([]Value, n)}
+					copy(out.e, arr.e[i0:i0+n])
+					return r.fixSort(out, x.Type())
+				}
+			}
+		}
+		return r.fixSort(r.load(p), x.Type())
 	case token.NOT:
 		return r.ts.BNot(v.(*Term))
 	case token.SUB:
